@@ -1100,6 +1100,9 @@ class DesignSpace:
         )
         self.__no_integer = not self.__integer_components.any()
         self.__norm_data_is_computed = True
+        # The normalized current value depends on the bounds: it is recomputed on demand.
+        self.__norm_current_value = {}
+        self.__norm_current_value_array = array([])
         if self.__has_current_value:
             self.__common_dtype = self.__get_common_dtype(self.__current_value.values())
         else:
